@@ -317,8 +317,9 @@ TABLES = [["t", [], None], ["t", [], "ta"], ["u", ["s"], None], ["v", ["d", "s"]
 
 
 class Gen:
-    def __init__(self, rng, p_alias=0.15, p_table=0.4, hostile=0.3, with_sub=False, all_ops=True):
+    def __init__(self, rng, p_alias=0.15, p_table=0.4, hostile=0.3, with_sub=False, all_ops=True, p_crit=0.0):
         self.r = rng
+        self.p_crit = p_crit      # share of comparison / arithmetic operands that are themselves predicates
         self.p_alias = p_alias
         self.p_table = p_table
         self.hostile = hostile
@@ -379,6 +380,8 @@ class Gen:
         """operand of a comparison: numeric expression, or (rarely) a sub-query"""
         if self.with_sub and self.r.random() < 0.08:
             return ["sub", self.alias()]
+        if self.p_crit and self.r.random() < self.p_crit:
+            return self.boolean(d)
         return self.num(d)
 
     def strv(self, d):
